@@ -187,6 +187,47 @@ class SymContext(object):
         abstracted value that execution continues with"""
         self.ip.cuts[(qual, local_name)] = lambda v, env: hook(v)
 
+    def loop_invariant(self, qual, ordinal, inv, havoc, name=None, variant=None):
+        """inductive invariant for the `ordinal`-th loop (source order) of function `qual`
+        (DESIGN.md 1.5).  inv(vars) -> formula over the local variables; havoc(vars) replaces
+        the loop-modified locals by arbitrary values.  Generates three kinds of obligations:
+        init (invariant holds on entry), preserve (one arbitrary iteration re-establishes it;
+        the path is then cut), and the code after the loop runs from an arbitrary state that
+        satisfies the invariant and the negated loop test.  `variant(vars)` (optional) must be
+        >= 0 and decrease strictly on every iteration (termination)."""
+        I = self._I
+        sym = self._sym
+        from .explore import PathAbort
+        tag = name or ('loop%d' % ordinal)
+        ctx = self.ctx
+
+        def rule(ip, st, env):
+            import ast as _ast
+            ctx.oblige('%s/invariant-holds-on-entry' % tag, self._h(inv(env.vars)))
+            havoc(env.vars)
+            ctx.assume(self._h(inv(env.vars)))
+            if isinstance(st, _ast.While):
+                test = ip.truth(ip.eval(st.test, env))
+                go = test if isinstance(test, bool) else ctx.decide(test)
+            else:
+                raise I.Unsupported("loop_invariant on a for loop: use for_invariant")
+            if not go:
+                ip.exec_block(st.orelse, env)
+                return
+            v0 = variant(env.vars) if variant is not None else None
+            try:
+                ip.exec_block(st.body, env)
+            except I._Continue:
+                pass
+            except I._Break:
+                return
+            ctx.oblige('%s/invariant-is-preserved' % tag, self._h(inv(env.vars)))
+            if variant is not None:
+                v1 = variant(env.vars)
+                ctx.oblige('%s/variant-decreases' % tag, self._h(sym.And(sym.le(0, v0), sym.lt(v1, v0))))
+            raise PathAbort("loop cut after one arbitrary iteration")
+        self.ip.loop_specs[(qual, ordinal)] = rule
+
     def use_lemma(self, name, *args):
         """assume an instance of a ghost lemma that is proved by its own contract"""
         from contracts import lemmas
@@ -381,6 +422,9 @@ class ConcContext(object):
         return bool(cond)
 
     def use_lemma(self, name, *args):
+        pass
+
+    def loop_invariant(self, *a, **k):
         pass
 
     def step(self, name, cond, using=None, **meta):
